@@ -75,3 +75,65 @@ Example c14_world_example :
   forallb (no_build 0) ops = true /\
   snd (wrun out degraded ops w) = [(0, KText, Ok [0%N]); (1, KMd, Ok [1%N]); (0, KText, Ok [0%N]); (0, KText, Ok [0%N])].
 Proof. cbv zeta. split; vm_compute; reflexivity. Qed.
+
+(* ---- Round 6: tables whose items are NOT in the state their cells last read
+   (Model/RenderMut.v: the mutation machine of Model/TableMut.v - building
+   calls, MMutate = the application changes an object in place, MUpdateAt /
+   MUpdateHeader = Cell.Update() - with wraps and renders as further steps of
+   one program; proofs in Proofs/RenderMutProofs.v). *)
+From Tab Require Import Model.RenderMut Proofs.RenderMutProofs Model.Csv.
+
+(* Wraps and renders are invisible to the table: after ANY program the table -
+   every cell's item and the state it was last read in, counts, order, column
+   properties, the objects - is what the application's own steps alone make it. *)
+Theorem c14_mut_renders_invisible : forall W json (p : list rop) (s : rstate),
+  r_m (rrun W json s p) = fold_left mstep (prog_of p) (r_m s).
+Proof. exact rrun_m. Qed.
+Print Assumptions c14_mut_renders_invisible.
+
+(* After ANY program (building, mutation, update, wraps, renders in any order)
+   in which a k-wrapper was made, a render through it is the format's output
+   for what the cells have cached and the items are now. *)
+Theorem c14_mut_render_is_out : forall W json out degraded (p : list rop) (s : rstate) k,
+  consistent W json s -> rwrapped k p ->
+  rrender out degraded (rrun W json s p) k = out k (mview W json (r_m (rrun W json s p))).
+Proof. exact rrender_is_out. Qed.
+Print Assumptions c14_mut_render_is_out.
+
+(* Any number of wraps and renders, any formats, any order: every format then
+   renders the same bytes as before them - JSON too, whatever state the items
+   are in. *)
+Theorem c14_mut_repeatable : forall W json out degraded (p1 p2 : list rop) (s : rstate) k,
+  consistent W json s -> rwrapped k p1 -> forallb quiet p2 = true ->
+  rrender out degraded (rrun W json (rrun W json s p1) p2) k = rrender out degraded (rrun W json s p1) k.
+Proof. exact quiet_repeatable. Qed.
+Print Assumptions c14_mut_repeatable.
+
+(* Items changed behind the table's back (no Update), renders and wraps in
+   between: a format that reads of a cell only what the cell has cached gives
+   the same bytes as the first time, although every item now reads differently. *)
+Theorem c14_stale_repeatable : forall W json out degraded (p1 p2 : list rop) (s : rstate) k,
+  consistent W json s -> cache_only out k -> rwrapped k p1 -> forallb no_read p2 = true ->
+  rrender out degraded (rrun W json (rrun W json s p1) p2) k = rrender out degraded (rrun W json s p1) k.
+Proof. exact stale_repeatable. Qed.
+Print Assumptions c14_stale_repeatable.
+
+(* CSV (Model/Csv.v) is such a format. *)
+Theorem c14_csv_reads_cache_only : forall v v', view_cached v = view_cached v' -> csv_render v = csv_render v'.
+Proof. exact csv_cache_only. Qed.
+Print Assumptions c14_csv_reads_cache_only.
+
+(* not vacuous: a cell holding an object whose String() says "f"; a text
+   wrapper and render; the object is changed to say "ss"; JSON and text
+   renders.  The cell still shows "f" - and "ss" once it is updated. *)
+Example c14_stale_example :
+  let W := fun b : bytes => length b in
+  let json := fun _ : item => @None bytes in
+  let e := fun _ : N => mkObj (Some [102%N]) None None None None [] (Some [123%N; 125%N]) in
+  let ob2 := mkObj (Some [115%N; 115%N]) None None None None [] (Some [123%N; 125%N]) in
+  let p1 := [RProg (MOp (TCore (AddRowItems [IObj 1%N]))); RWrap Wrap.KText; RRender Wrap.KText] in
+  let p2 := [RProg (MMutate 1%N ob2); RRender Wrap.KJson; RRender Wrap.KText] in
+  forallb no_read p2 = true /\ rwrapped Wrap.KText p1 /\
+  map row_texts (body_rows (mview W json (r_m (rrun W json (rinit W json e) (p1 ++ p2))))) = [[[102%N]]] /\
+  map row_texts (body_rows (mview W json (r_m (rrun W json (rinit W json e) (p1 ++ p2 ++ [RProg (MUpdateAt 0 0)]))))) = [[[115%N; 115%N]]].
+Proof. cbv zeta. repeat split; try (vm_compute; reflexivity). right. left. reflexivity. Qed.
